@@ -1502,6 +1502,35 @@ class Interp:
                 hi = sum((1 << i) for i, x in enumerate(ls) if x != 0)
                 return lo, hi
             (a0, a1), (b0, b1) = rng(l), rng(r)
+            # a bit vector against a power-of-two boundary: x < 2^k says the
+            # lanes from k upwards are all zero (a conjunction the state can
+            # be refined with, unlike a free `either`)
+            if isinstance(l, (AInt, ABool)) and isinstance(r, int) and \
+                    not isinstance(r, bool):
+                bound, below = None, None
+                if isinstance(op, ast.Lt):
+                    bound, below = r, True
+                elif isinstance(op, ast.LtE):
+                    bound, below = r + 1, True
+                elif isinstance(op, ast.GtE):
+                    bound, below = r, False
+                elif isinstance(op, ast.Gt):
+                    bound, below = r + 1, False
+                if bound is not None and bound > 0 and \
+                        bound & (bound - 1) == 0:
+                    k_ = bound.bit_length() - 1
+                    ls_ = lanes_of(l)
+                    if st is not None:
+                        ls_ = [lane_val(st, x) if lane_val(st, x) is not
+                               None else x for x in ls_]
+                    up = ls_[k_:]
+                    if any(x == 1 for x in up):
+                        return not below
+                    pairs_ = [(x, 0) for x in up if x != 0]
+                    if not pairs_:
+                        return below
+                    c_ = Cmp(pairs_)
+                    return c_ if below else c_.negate()
             t = {ast.Lt: (a1 < b0, a0 >= b1), ast.Gt: (a0 > b1, a1 <= b0),
                  ast.LtE: (a1 <= b0, a0 > b1),
                  ast.GtE: (a0 >= b1, a1 < b0)}[type(op)]
